@@ -321,7 +321,8 @@ let enum_acts (s : state) ~nobj ~nreg ~nslot ~(profile : string) : act list =
               | Some k -> add (AStore (nat_of_int src, OReg (nat_of_int r), nat_of_int k))
               | None -> ()) owners
       | _ -> ()) regs;
-  List.iter (fun a -> List.iter (fun b -> add (AAdopt (a, b)); add (AUnadopt (a, b))) shrefs) shrefs;
+  if not (has 'n') then
+    List.iter (fun a -> List.iter (fun b -> add (AAdopt (a, b)); add (AUnadopt (a, b))) shrefs) shrefs;
   if has 'a' then begin
     List.iter (fun (r, _) ->
         let r = nat_of_int r in
